@@ -229,8 +229,9 @@ def units(tier, seed=0):
                                        tag='/isolation/after-foreign-stepped/%d' % i, foreign_before=fc,
                                        vmsa=own.get('vmsa', False)):
             us.append(u)
-    # ... and with this instance's MPU enabled (one symbolic region), where the memory architecture decides every access
-    for u in famcheck.family_units({ISA['LdrImmediateArmA1'].family}, [7], T, only=['LdrImmediateArmA1'],
+    # ... and (thorough tier) with this instance's MPU enabled (one symbolic region), where the memory architecture
+    # decides every access
+    for u in [] if tier == 'quick' else famcheck.family_units({ISA['LdrImmediateArmA1'].family}, [7], T, only=['LdrImmediateArmA1'],
                                    tag='/isolation/after-foreign-stepped/mpu', foreign_before=dict(arch=7, vmsa=True),
                                    mpu=1, mpu_rsize=[4], fix={'P': 1, 'U': 1, 'W': 0}):
         u.max_seconds = 3000
